@@ -74,8 +74,8 @@ MIN_EVENTS = {"roundtrip": (25000, 300000), "roundtrip:newick": (8000, 100000), 
               "roundtrip:nexml": (3000, 40000), "node-compared": (150000, 5000000), "tree-compared": (30000, 400000),
               "roundtrip-pair:translate": (1000, 10000), "roundtrip-pair:uu+ps/pu": (2000, 20000),
               "roundtrip-pair:internal-taxa": (1000, 10000), "weight-compared": (1000, 20000),
-              "hook:Tree.as_string:return": (20000, 200000), "hook:TreeList.as_string:return": (5000, 100000),
-              "hook:Tree.get:return": (15000, 200000), "hook:TreeList.get:return": (5000, 100000),
+              "hook:Tree.as_string:return": (20000, 100000), "hook:TreeList.as_string:return": (5000, 50000),
+              "hook:Tree.get:return": (15000, 100000), "hook:TreeList.get:return": (5000, 50000),
               "hook:NewickWriter._render_node_tag:return": (100000, 5000000),
               "hook:nexusprocessing.escape_nexus_token:return": (100000, 5000000),
               "hook:Tokenizer.__next__:return": (500000, 20000000)}
